@@ -58,7 +58,7 @@ def units(tier, seed):
                 ("F", 1, 2)]
     else:
         plan = [("U233", 100, 3), ("U332", 30, 3), ("U422", 30, 3),
-                ("U432", 150, 2), ("F", 1, 3)]
+                ("U432", 150, 1), ("F", 1, 3)]
     plan.sort(key=lambda t: t[0] != "F")  # heavy feature family first
     us = []
     for name, csize, k in plan:
